@@ -62,7 +62,7 @@ def gen_l1_inputs(run, pkgs, n_malformed):
                 if f["json"]:
                     t.append('json:"%s"' % f["json"])
                 if f["alias"]:
-                    t.append('shoot:"alias=%s"' % f["alias"])
+                    t.append('shoot:"%salias=%s%s"' % (f.get("tagpre", ""), f["alias"], f.get("tagpost", "")))
                 if t:
                     tags.append("`" + " ".join(t) + "`")
         for ifc in pkg["ifaces"]:
@@ -553,7 +553,7 @@ def main(run):
         if r["rc"] != 0 or r["timed_out"] or not gen:
             run.violation({"kind": "property-fails-on-implementation",
                            "what": "shoot rest fails on an interface of the grammar: no client method can send anything",
-                           "theorem": "C06_cook_succeeds (the model generates every method of a well-formed interface)",
+                           "theorem": "C06_every_method_is_generated (the model generates every method of a well-formed interface)",
                            "cmd": "shoot rest -type=" + ",".join(i["name"] for i in pkg["ifaces"]),
                            "rc": r["rc"], "stderr": r["err"][-1500:], "sources": rg.render_go(pkg, mod.name)})
         else:
@@ -626,7 +626,7 @@ def main(run):
         srcs = rg.render_go(c["pkg"], mod.name)
         gen = {p.name: p.read_text() for p in (mod / c["pkg"]["name"]).glob("*.shootrest*.go")}
         run.violation({"kind": "property-fails-on-implementation" if v == 2 else "correspondence-broken",
-                       "theorem": "C06_request_is_the_declared_one (C06_path / C06_query / C06_body / C06_headers / C06_context)",
+                       "theorem": "C06_request_is_the_declared_one / C06_declared_request_reads",
                        "correspondence": "L2:C06:generated client vs Model/Rest.v (cook_methods, exec) and Model/RestSpec.v (spec_request)",
                        "case": case_summary(c, o), "coq_case": term,
                        "replay_input": {"pkg": c["pkg"], "iface": c["iface"]["name"], "method": c["method"]["name"],
@@ -698,13 +698,26 @@ TRUSTED = [
 
 ASSUMPTIONS = [
     "guards of the theorems (decidable, checked on every generated case inside Coq, verdict 3 otherwise): wf_mspec, "
-    "args_in_guard and the link hypotheses (parse_path/parse_alias of the doc comment give the structured directive, "
-    "kind_of classifies every parameter)",
-    "open findings keep their input class out of the comparison stream and are replayed on every run: see known_findings "
-    "K_rest_ptr_map, K_rest_nil_struct_ptr, K_rest_path_percent, K_rest_subst_rescan (and K_rest_alias_dup, owned by C07); "
-    "repaired and replayed as regressions: K_rest_ctx_global, K_rest_body_no_struct, K_rest_two_maps, "
-    "K_rest_header_value_trim, K_rest_struct_other_file",
-    "base URLs of the cases carry no query string and no escapes; path arguments carry no percent sign (K_rest_path_percent)",
+    "args_in_guard (incl. path_text_safe: a path argument is one non-empty non-dot segment without slash, percent sign "
+    "or brace) and the link hypotheses (env_ok; parse_path/parse_alias of the doc comment give the structured "
+    "directive; kind_of classifies every parameter -- the classification, the field extraction and the default header "
+    "table are the model's own definitions on both sides, tied to the code by L2 only)",
+    "'exactly one request' is a convention of the model (OSent r = one c.client.Do): it is established by the driver, which "
+    "counts the requests the server received per call (and zero on every error return: nil context, unparsable base URL, "
+    "cancelled context), not by a theorem; 'joined to the base URL' means join_path base path_ for an uninterpreted "
+    "join_path in the theorems, and the plain join (base path + '/' + substituted path) in the comparison",
+    "the brace guard of args_in_guard / C06_path_substitution (no '{' in a path argument) is sufficient, not necessary: "
+    "only a text that completes '{h}' for a later placeholder h is substituted again; harmless brace values are sampled "
+    "(they are judged against the declarative spec whenever model and spec agree on them) but not covered by the theorem",
+    "open findings keep their input class out of the guards, are compared with the faithful model while they reproduce, "
+    "and are replayed on every run: K_rest_ptr_map, K_rest_nil_struct_ptr, K_rest_path_percent (missing url.PathEscape), "
+    "K_rest_subst_rescan (and K_rest_alias_dup, owned by C07); repaired and replayed as regressions: K_rest_ctx_global, "
+    "K_rest_body_no_struct, K_rest_two_maps, K_rest_header_value_trim, K_rest_struct_other_file, K_rest_unnamed_param, "
+    "K_rest_ptr_path_param, K_rest_qualified_scalar, K_rest_literal_unescaped",
+    "never generated, outside the claim: embedded struct fields (the fd_names = [] branch of extractStructFields), float "
+    "scalars, two struct parameters (refused as 'ambiguous body binding' even on GET), a qualified named non-struct "
+    "type on POST/PUT/PATCH or a qualified named map/slice anywhere (kind KOpaque, outside wf_mspec: the generator binds "
+    "it as the body), percent signs in path arguments, base URLs with escapes",
 ]
 
 
